@@ -47,7 +47,7 @@ func c05(c *Ctx) {
 	}
 	ainfo := ax.Pkg.TypesInfo
 
-	c.Rule("R1", "types (reflexive identity)", "every dynamic type stored behind Distinct.iface / Value.slice has reflexive ==: no floating-point element types in reflect.ArrayOf, scalar floats stored as bits, no float field in Value/KeyValue", 7)
+	c.Rule("R1", "types (reflexive identity)", "every dynamic type stored behind Distinct.iface / Value.slice has reflexive ==: no floating-point element types in reflect.ArrayOf, scalar floats stored as bits, no float field in Value/KeyValue; slice values are stored as arrays of exactly len(slice) elements", 11)
 	for _, px := range []*PkgIndex{ix, ax} {
 		info := px.Pkg.TypesInfo
 		for _, s := range px.FindCalls(func(f *FuncInfo, call *ast.CallExpr) bool {
@@ -89,6 +89,19 @@ func c05(c *Ctx) {
 			}
 			c.Check(!hasFloat(et, 0), "R1", key, px.at(s), "element type "+et.String(),
 				"array of "+et.String()+" is compared with ==, which is not reflexive for NaN: a Set holding such a value is not equal to itself and is never found again as a map key")
+			// the array holds exactly the slice's elements: its length is len(<the slice parameter>) (cap() pads with zero values,
+			// a constant cuts or pads) — same in all sibling constructors
+			if outer.Lit == nil && outer.Obj != nil {
+				sig := outer.Obj.Type().(*types.Signature)
+				if sig.Params().Len() == 1 {
+					if _, isSlice := sig.Params().At(0).Type().Underlying().(*types.Slice); isSlice {
+						p := sig.Params().At(0)
+						okLen := isLenOf(info, call.Args[0], func(e ast.Expr) bool { return sameVar(info, e, p) })
+						c.Check(okLen, "R1", shortPkg(px.Pkg.PkgPath)+"|"+outer.Name+"|array length is len of the slice", px.at(s), "reflect.ArrayOf(len("+p.Name()+"), …)",
+							"the array is sized with "+exprStr(call.Args[0])+" instead of len("+p.Name()+"): the stored value gains or loses elements (e.g. a slice with spare capacity is padded with zero values and no longer equals the same elements supplied tightly)")
+					}
+				}
+			}
 		}
 	}
 	// scalar floats as bits
